@@ -1,6 +1,6 @@
 (* ChecksProofs.v — no invalid message state is reachable through the checked API (C03). *)
 From Coq Require Import ZArith List Bool Lia ZifyBool.
-Require Import Mido.Model.Base Mido.Model.Codec Mido.Model.Names Mido.Model.Checks.
+Require Import Mido.Model.Base Mido.Model.Codec Mido.Model.Names Mido.Model.Checks Mido.Proofs.CodecProofs.
 Import ListNotations.
 Open Scope Z_scope.
 
@@ -211,3 +211,17 @@ Lemma copy_unfixed_refuted : exists c, copy_gen false (Sysex [], PA (AInt 0)) [(
 Proof. eexists. split; reflexivity. Qed.
 Lemma copy_fixed_rejects : copy (Sysex [], PA (AInt 0)) [(AData, PA (AInt 5))] = Raise TypeError.
 Proof. reflexivity. Qed.
+
+(* ---- from_bytes on arbitrary items: a message only for a sequence of integers that is exactly its encoding ---- *)
+Theorem dec_items_spec items :
+  match dec_items items with
+  | Ok m => exists zs, atoms_ints items = Some zs /\ valid m = true /\ enc m = zs
+  | Raise e => e = ValueError \/ (e = TypeError /\ atoms_ints items = None)
+  end.
+Proof.
+  unfold dec_items. destruct items as [|a r]; [left; reflexivity|].
+  destruct (atoms_ints (a :: r)) as [zs|] eqn:E; [|right; auto].
+  pose proof (exact zs) as H. destruct (dec zs) as [m|e]; [exists zs; destruct H; auto|left; exact H].
+Qed.
+Theorem dec_items_non_integer items : items <> [] -> atoms_ints items = None -> dec_items items = Raise TypeError.
+Proof. intros Hne H. unfold dec_items. destruct items; [congruence|]. now rewrite H. Qed.
